@@ -1,5 +1,5 @@
-INIT Init
-NEXT MCNext
+INIT SInit
+NEXT SNext
 CONSTANTS
   Stacks <- StackFull1
   Indeps <- OnlyIndep
@@ -13,6 +13,8 @@ CONSTANTS
   RenderClasses <- C4RenderQ
   Mro <- MCMro
   StatusOf <- MCStatus
+  OwnVary <- MCOwnVary
+  MaxReqs = 1
   WrongDesign = "none"
   MaxFaults = 1
 INVARIANT Emit
